@@ -346,7 +346,7 @@ class Pairs(SubCheck):
     def __init__(self, svg, tier):
         self.svg = svg
         lin = lattice()
-        step = 7 if tier != "thorough" else 3
+        step = 7 if tier != "thorough" else 2
         sub = []
         k = 0
         for i in range(0, len(lin), step):
